@@ -137,7 +137,7 @@ func Explore(t *testing.T, h Harness, bound int, shard, nshards int, deadline ti
 		tr := x.S.Trace
 		cost := 0
 		for i := 0; i < len(tr); i++ {
-			if i >= len(prefix) {
+			if i >= len(prefix) && !tr[i].NoBranch {
 				for alt := 1; alt < tr[i].N; alt++ {
 					if cost+tr[i].Cost[alt] > bound {
 						continue
